@@ -391,6 +391,7 @@ func modeEvents(seed uint64, n int, out *sx.Out) {
 		out.Case(coq, map[string]interface{}{"case": i, "records": strings.Join(g.desc, ","), "err": fmt.Sprint(err1), "warnings": len(w1) > 2}, fmt.Sprintf("group/records=%d", len(in)), e1 != nil)
 	}
 	for i := 0; i < n; i++ {
+		out.Begin(map[string]interface{}{"mode": "modeEvents", "case": i})
 		r := sx.Fork(seed, uint64(i))
 		do(i, r, genGroup(r))
 	}
@@ -445,6 +446,7 @@ func modeEvents(seed uint64, n int, out *sx.Out) {
 func modeCache(seed uint64, n int, out *sx.Out) {
 	pauses := 0
 	for i := 0; i < n; i++ {
+		out.Begin(map[string]interface{}{"mode": "modeCache", "case": i})
 		r := sx.Fork(seed^0xcac4e, uint64(i))
 		cl, exp := "Never", time.Hour
 		switch {
